@@ -186,6 +186,7 @@ type fnExec struct {
 	nreturns  int
 	measure   string
 	pendingWT [][2]interface{}
+	pendingInv [][2]interface{}
 	warnings  []string
 	spawns    map[string]*spawnInfo
 }
@@ -826,6 +827,7 @@ func (fx *fnExec) run() (err error) {
 	fx.reach[0] = "true"
 	fx.asserts = append(fx.asserts, assertion{-1, "(assert (>= alloc!0 0))"})
 	fx.params = map[string]sval{}
+	var paramInv [][2]interface{}
 	for _, p := range fn.Params {
 		n := "p!" + p.Name()
 		s := fx.d.SortOf(p.Type())
@@ -833,6 +835,7 @@ func (fx *fnExec) run() (err error) {
 		fx.vals[p] = val{term: n, typ: p.Type()}
 		fx.params[p.Name()] = sval{term: n, typ: p.Type(), sort: s}
 		fx.asserts = append(fx.asserts, assertion{-1, "(assert " + fx.wellTyped(n, p.Type(), "alloc!0") + ")"})
+		paramInv = append(paramInv, [2]interface{}{n, p.Type()})
 	}
 	for _, p := range fn.FreeVars {
 		n := "fv!" + p.Name()
@@ -844,6 +847,9 @@ func (fx *fnExec) run() (err error) {
 		fx.asserts = append(fx.asserts, assertion{-1, "(assert (> " + n + " 0))"})
 	}
 	fx.entry = st.clone()
+	for _, pi := range paramInv {
+		fx.assumeObjInv(fx.entry, pi[0].(string), pi[1].(types.Type))
+	}
 	// ghost maps keyed by reference have their default value at references not yet allocated
 	for _, gn := range fx.g.cs.GhostOrder {
 		g := fx.g.cs.Ghosts[gn]
@@ -879,14 +885,45 @@ func (fx *fnExec) run() (err error) {
 		reqTerms = append(reqTerms, v.term)
 		fx.asserts = append(fx.asserts, assertion{-1, "(assert " + v.term + ")"})
 	}
+	// hypotheses anchored at entry: side conditions of the property statement on the inputs
+	for _, h := range fx.ct.Hypotheses {
+		if h.Anchor == "entry" {
+			fx.usedAnchors[h] = true
+			v := pre.eval(h.Expr)
+			fx.asserts = append(fx.asserts, assertion{-1, "(assert " + v.term + ")"})
+			fx.assumptionsUsed[fmt.Sprintf("hypothesis [%s] of %s (side condition of the property statement): %s", h.Label, fx.g.relKey(fx.fn), h.Src)] = true
+		}
+	}
 	// modifies locations at entry
 	for i, m := range fx.ct.Modifies {
 		fx.modLocs = append(fx.modLocs, fx.evalLoc(pre, m, fx.ct.ModifiesSrc[i]))
+	}
+	// objects of types with declared invariants must be immutable after construction:
+	// no contract may list their fields in a modifies clause
+	for _, oi := range fx.g.cs.ObjInvs {
+		if t := fx.g.lookupType(oi.Pkg, oi.Type); t != nil && structOf(t) != nil {
+			for i := 0; i < structOf(t).NumFields(); i++ {
+				arr, _ := fx.fieldArr(t, i)
+				for _, l := range fx.modLocs {
+					if l.arr == arr {
+						fx.fail("modifies clause lists field %s of type %s, which has object invariants (objects must be immutable after construction)", structOf(t).Field(i).Name(), oi.Type)
+					}
+				}
+			}
+		}
 	}
 	// vacuity obligation: requires satisfiable (must be sat)
 	vo := fx.addObl("vacuity", "requires", fx.allProps(), "false", fn.Pos(), "requires && axioms satisfiable")
 	vo.Canary = true
 
+	if len(fx.ct.Deterministic) > 0 {
+		why := fx.g.nondeterminism(fx.fn, map[*ssa.Function]bool{})
+		goal := "true"
+		if why != "" {
+			goal = "false"
+		}
+		fx.addObl("pure", "deterministic", fx.ct.Deterministic, goal, fn.Pos(), "no map iteration, clock, environment, randomness, goroutine or select in the call graph: "+why)
+	}
 	fx.out[-1] = st
 	for _, b := range fx.order {
 		fx.execBlock(b)
